@@ -1,3 +1,3 @@
 SPECIFICATION Spec
-INVARIANTS C18_SessNoRetransOnCleanPath C18_SessRtoBounds C04_WriteAdmission C04_SessBounds C01_ReadIsNextBytes C01_MessageBoundaries C02_TransferCompletes C09_Layout C09_ParityIsReedSolomon C09_FecTypeMatchesPosition C09_FecIdInRange C09_FecSequence C09_NonceFresh C09_WireReassembles C10_LenWithinMtu C19_IntactOrAbsent C19_RefusalRule C19_OOBFrame C15_NoLeak C15_NoLeak_BacklogSession C15_PoolOwnership C13_AfterClose C06_NoEffect C06_CounterOnly C05_Bounds
+INVARIANTS C18_SessNoRetransOnCleanPath C18_SessRtoBounds C04_WriteAdmission C04_SessBounds C01_ReadIsNextBytes C01_MessageBoundaries C02_TransferCompletes C09_Layout C09_ParityIsReedSolomon C09_FecTypeMatchesPosition C09_FecIdInRange C09_FecSequence C09_NonceFresh C09_WireReassembles C10_LenWithinMtu C19_IntactOrAbsent C19_RefusalRule C19_OOBFrame C19_FecProtectionKept C15_NoLeak C15_NoLeak_BacklogSession C15_PoolOwnership C13_AfterClose C06_NoEffect C06_CounterOnly C05_Bounds
 CHECK_DEADLOCK FALSE
